@@ -136,10 +136,14 @@ static void part2_dot(Ctx& ctx, uint64_t nrows) {
   if (!ctx.want(id)) return;
   ctx.begin_case(id);
   GBuf u(64 * nrows, 8), v(128 * nrows, 24), d(128, 8);
-  for (uint64_t i = 0; i < 8 * nrows; ++i) u.as<double>()[i] = val(i + 7 * nrows, i % 2);
-  for (uint64_t i = 0; i < 16 * nrows; ++i) v.as<double>()[i] = val(i + 1000 + nrows, 0);
   std::string err;
+  for (int pass = 0; pass < 2; ++pass)   // seeded values, then structured rows of u
   for (int av = 0; av < 2 && err.empty(); ++av) {
+    if (av == 0) {
+      for (uint64_t i = 0; i < 8 * nrows; ++i) u.as<double>()[i] = val(i + 7 * nrows, pass ? 0 : (int)(i % 2));
+      for (uint64_t i = 0; i < 16 * nrows; ++i) v.as<double>()[i] = val(i + 1000 + nrows, 0);
+      if (pass) structured_rows(u.as<double>(), nrows);
+    }
     q128 acc[16], ab[16];
     for (int i = 0; i < 16; ++i) acc[i] = ab[i] = 0;
     for (uint64_t r = 0; r < nrows; ++r) r4_addmul_q(acc, ab, u.as<double>() + 8 * r, v.as<double>() + 8 * r);
